@@ -139,3 +139,9 @@ func (g *GoBackNConn) VerifStopPongTicker() {
 		g.pongTicker.Stop()
 	}
 }
+
+// VerifTickers returns the identities under which the connection's ping and
+// pong tickers report their events (nil before the connection is started).
+func (g *GoBackNConn) VerifTickers() (any, any) {
+	return g.pingTicker, g.pongTicker
+}
